@@ -131,5 +131,829 @@ Definition misalign (g : grid) (l : Z) : Z :=
 
 Definition shift_y (b : bbox) (d : Z) : bbox := let '(x0, y0, x1, y1) := b in (x0, y0 + d, x1, y1 + d).
 
-(* the rectangle of the flipped coordinate in the grid numbered from the other corner is the same
-   rectangle, moved by the misalignment of the level *)
+(* ---- part A: flip rectangle *)
+Lemma bbox_eq (a b c d a' b' c' d' : Z) : a = a' -> b = b' -> c = c' -> d = d' -> (a, b, c, d) = (a', b', c', d').
+Proof. intros; subst; reflexivity. Qed.
+
+Lemma grid_size_set_origin g o l : grid_size (set_origin g o) l = grid_size g l.
+Proof. reflexivity. Qed.
+
+Lemma flip_rectangle_shift g x y l :
+  let '(x', y', l') := flip_tile_coord g x y l in
+  tile_bbox (set_origin g (negb (ul g))) x' y' l' =
+  shift_y (tile_bbox g x y l) (if ul g then - misalign g l else misalign g l).
+Proof.
+  unfold flip_tile_coord, tile_bbox, shift_y, misalign, grid_size, res_at, set_origin.
+  cbn [ul gx0 gy0 gx1 gy1 tw th ress snd].
+  destruct (ul g); cbn [negb]; apply bbox_eq; ring.
+Qed.
+
+Lemma level_bbox_y g l :
+  wf g -> valid_level g l = true ->
+  let '(_, ly0, _, ly1) := level_bbox g l in
+  if ul g then (gy0 g - ly0 = - misalign g l /\ gy1 g - ly1 = 0)
+  else (gy0 g - ly0 = 0 /\ gy1 g - ly1 = misalign g l).
+Proof.
+  intros Hwf Hv. pose proof (grid_size_cover g l Hwf Hv) as Hc.
+  pose proof (res_at_pos g l Hwf Hv) as Hr.
+  destruct Hwf as (_ & _ & Htw & Hth & _).
+  unfold level_bbox, misalign. destruct (grid_size g l) as [nx ny]. cbn [snd].
+  cbv zeta in Hc. destruct Hc as (Hnx & Hny & _).
+  unfold tile_bbox, merge_bbox. set (r := res_at g l) in *.
+  assert (0 < r * th g) by nia.
+  destruct (ul g); split; nia.
+Qed.
+
+Lemma all_levels_from_spec f n : forall l0,
+  all_levels_from f l0 n = true -> forall l, l0 <= l < l0 + Z.of_nat n -> f l = true.
+Proof.
+  induction n as [|n IH]; intros l0 H l Hl; [lia|].
+  cbn [all_levels_from] in H. apply andb_true_iff in H. destruct H as [H0 H1].
+  destruct (Z.eq_dec l l0) as [->|Hne]; [assumption|].
+  apply (IH (l0 + 1) H1). lia.
+Qed.
+
+Definition ymag (g : grid) : Z := Z.max (Z.abs (gy0 g)) (Z.abs (gy1 g)).
+
+Lemma supports_misalign_small g o l :
+  wf g -> valid_level g l = true -> supports_access_with_origin g o = true -> o <> ul g ->
+  Z.abs (misalign g l) * ten12 <= ymag g.
+Proof.
+  intros Hwf Hv Hs Ho. unfold supports_access_with_origin in Hs.
+  destruct (Bool.eqb o (ul g)) eqn:E; [apply eqb_prop in E; contradiction|].
+  assert (Hl : level_aligned g l = true).
+  { apply (all_levels_from_spec _ _ 0 Hs). unfold valid_level, levels in Hv. lia. }
+  pose proof (level_bbox_y g l Hwf Hv) as Hb.
+  unfold level_aligned in Hl. destruct (level_bbox g l) as [[[lx0 ly0] lx1] ly1].
+  unfold ymag. destruct (ul g); destruct Hb as [Hb0 Hb1]; rewrite Hb0, Hb1 in Hl; unfold ten12 in *; lia.
+Qed.
+
+(* tile coordinate as addressed with origin o *)
+Definition coord_for_origin (g : grid) (o : bool) (x y l : Z) : Z * Z * Z :=
+  if Bool.eqb o (ul g) then (x, y, l) else flip_tile_coord g x y l.
+
+Lemma set_origin_same g : set_origin g (ul g) = g.
+Proof. destruct g; reflexivity. Qed.
+
+Lemma flip_preserves_rectangle g o x y l :
+  wf g -> valid_level g l = true -> supports_access_with_origin g o = true ->
+  let '(x', y', l') := coord_for_origin g o x y l in
+  exists d, Z.abs d * ten12 <= ymag g /\
+            tile_bbox (set_origin g o) x' y' l' = shift_y (tile_bbox g x y l) d.
+Proof.
+  intros Hwf Hv Hs. unfold coord_for_origin.
+  destruct (Bool.eqb o (ul g)) eqn:E.
+  - apply eqb_prop in E. subst o. exists 0. split; [unfold ymag; lia|].
+    rewrite set_origin_same. unfold shift_y. destruct (tile_bbox g x y l) as [[[a b] c] d].
+    apply bbox_eq; lia.
+  - assert (Ho : o <> ul g) by (intros ->; rewrite eqb_reflx in E; discriminate).
+    assert (o = negb (ul g)) as -> by (destruct o, (ul g); try reflexivity; exfalso; apply Ho; reflexivity).
+    pose proof (flip_rectangle_shift g x y l) as Hf.
+    pose proof (supports_misalign_small g _ l Hwf Hv Hs Ho) as Hm.
+    destruct (flip_tile_coord g x y l) as [[x' y'] l'].
+    exists (if ul g then - misalign g l else misalign g l). split; [|exact Hf].
+    destruct (ul g); unfold ten12 in *; lia.
+Qed.
+
+(* coordinates below 10^12 quanta: the tolerance of supports_access_with_origin admits no misalignment at all *)
+Lemma flip_preserves_rectangle_exact g o x y l :
+  wf g -> valid_level g l = true -> supports_access_with_origin g o = true -> ymag g < ten12 ->
+  let '(x', y', l') := coord_for_origin g o x y l in
+  tile_bbox (set_origin g o) x' y' l' = tile_bbox g x y l.
+Proof.
+  intros Hwf Hv Hs Hm. pose proof (flip_preserves_rectangle g o x y l Hwf Hv Hs) as H.
+  destruct (coord_for_origin g o x y l) as [[x' y'] l'].
+  destruct H as (d & Hd & ->). assert (d = 0) as -> by (unfold ten12 in *; lia).
+  unfold shift_y. destruct (tile_bbox g x y l) as [[[a b] c] e]. apply bbox_eq; lia.
+Qed.
+
+(* ---- part B: the valid tiles of a level *)
+Lemma tile_or_none_limit g x y l :
+  valid_level g l = true ->
+  tile_or_none (fst (grid_size g l)) (snd (grid_size g l)) l x y = limit_tile g x y l.
+Proof.
+  intros Hv. unfold limit_tile, tile_or_none. rewrite Hv. cbn [negb].
+  destruct (grid_size g l) as [nx ny]. reflexivity.
+Qed.
+
+Lemma limit_tile_some g x y l t :
+  limit_tile g x y l = Some t ->
+  t = (x, y, l) /\ valid_level g l = true /\ 0 <= x < fst (grid_size g l) /\ 0 <= y < snd (grid_size g l).
+Proof.
+  unfold limit_tile. destruct (valid_level g l); cbn [negb]; [|discriminate].
+  destruct (grid_size g l) as [nx ny]. cbn [fst snd].
+  destruct ((x <? 0) || (y <? 0) || (nx <=? x) || (ny <=? y)) eqn:E; [discriminate|].
+  intros H. inversion H. repeat split; lia.
+Qed.
+
+Lemma limit_tile_valid g x y l :
+  valid_level g l = true -> 0 <= x < fst (grid_size g l) -> 0 <= y < snd (grid_size g l) ->
+  limit_tile g x y l = Some (x, y, l).
+Proof.
+  intros Hv Hx Hy. unfold limit_tile. rewrite Hv. cbn [negb].
+  destruct (grid_size g l) as [nx ny]. cbn [fst snd] in *.
+  replace ((x <? 0) || (y <? 0) || (nx <=? x) || (ny <=? y)) with false by (symmetry; lia). reflexivity.
+Qed.
+
+(* the area owned by the valid tiles of level l *)
+Definition in_tiled_area (g : grid) (l px py : Z) : Prop :=
+  let '(nx, ny) := grid_size g l in
+  let r := res_at g l in
+  gx0 g <= px < gx0 g + nx * (r * tw g) /\
+  (if ul g then gy1 g - ny * (r * th g) < py <= gy1 g else gy0 g <= py < gy0 g + ny * (r * th g)).
+
+Lemma div_range a s n : 0 < s -> (0 <= a / s < n <-> 0 <= a < n * s).
+Proof. intros Hs. pose proof (div_bounds a s Hs). split; intros; nia. Qed.
+
+Lemma tiled_area_iff g px py l :
+  wf g -> valid_level g l = true ->
+  let '(tx, ty) := tile g px py l in
+  limit_tile g tx ty l = Some (tx, ty, l) <-> in_tiled_area g l px py.
+Proof.
+  intros Hwf Hv. pose proof (res_at_pos g l Hwf Hv) as Hr.
+  destruct Hwf as (_ & _ & Htw & Hth & _).
+  unfold tile, in_tiled_area. set (r := res_at g l) in *.
+  assert (Hsx : 0 < r * tw g) by nia. assert (Hsy : 0 < r * th g) by nia.
+  destruct (grid_size g l) as [nx ny] eqn:Eg.
+  pose proof (div_range (px - gx0 g) (r * tw g) nx Hsx) as Hx.
+  split.
+  - intros H. apply limit_tile_some in H. rewrite Eg in H. cbn [fst snd] in H.
+    destruct H as (_ & _ & Hx' & Hy').
+    destruct (ul g).
+    + pose proof (div_range (gy1 g - py) (r * th g) ny Hsy). lia.
+    + pose proof (div_range (py - gy0 g) (r * th g) ny Hsy). lia.
+  - intros [Hpx Hpy]. apply limit_tile_valid; [assumption| |]; rewrite Eg; cbn [fst snd].
+    + lia.
+    + destruct (ul g).
+      * pose proof (div_range (gy1 g - py) (r * th g) ny Hsy). lia.
+      * pose proof (div_range (py - gy0 g) (r * th g) ny Hsy). lia.
+Qed.
+
+Lemma grid_covers_bbox_upto_one_pixel g l :
+  wf g -> valid_level g l = true ->
+  let '(nx, ny) := grid_size g l in
+  let r := res_at g l in
+  (* the tiled area starts at the origin corner and misses less than one pixel of the grid bbox *)
+  (gx1 g - gx0 g) - r < nx * (r * tw g) /\ (gy1 g - gy0 g) - r < ny * (r * th g) /\
+  (* the last column / row starts inside the bbox *)
+  (nx - 1) * (r * tw g) < gx1 g - gx0 g /\ (ny - 1) * (r * th g) < gy1 g - gy0 g /\
+  (* a point is owned by a valid tile exactly when it lies in the tiled area *)
+  (forall px py, let '(tx, ty) := tile g px py l in
+                 limit_tile g tx ty l = Some (tx, ty, l) <-> in_tiled_area g l px py).
+Proof.
+  intros Hwf Hv. pose proof (grid_size_cover g l Hwf Hv) as Hc.
+  destruct (grid_size g l) as [nx ny] eqn:Eg. cbv zeta in *.
+  destruct Hc as (H1 & H2 & H3 & H4 & H5 & H6).
+  split; [exact H3|]. split; [exact H5|]. split; [exact H4|]. split; [exact H6|].
+  intros px py. exact (tiled_area_iff g px py l Hwf Hv).
+Qed.
+
+(* ---- part C: the tiles reported for a rectangle *)
+Lemma zrange_length a b : length (zrange a b) = Z.to_nat (b + 1 - a).
+Proof. unfold zrange. rewrite map_length, seq_length. reflexivity. Qed.
+
+Lemma zrange_In a b x : In x (zrange a b) <-> a <= x <= b.
+Proof.
+  unfold zrange. rewrite in_map_iff. split.
+  - intros (k & <- & Hk). apply in_seq in Hk. lia.
+  - intros H. exists (Z.to_nat (x - a)). split; [lia|]. apply in_seq. lia.
+Qed.
+
+Lemma zrange_nth a b i d : (i < length (zrange a b))%nat -> nth i (zrange a b) d = a + Z.of_nat i.
+Proof.
+  intros Hi. rewrite zrange_length in Hi. unfold zrange.
+  rewrite (nth_indep _ d (a + Z.of_nat 0)) by (rewrite map_length, seq_length; exact Hi).
+  rewrite (map_nth (fun k => a + Z.of_nat k)). rewrite seq_nth by exact Hi. reflexivity.
+Qed.
+
+Lemma rev_zrange_nth a b i d :
+  (i < length (zrange a b))%nat -> nth i (rev (zrange a b)) d = b - Z.of_nat i.
+Proof.
+  intros Hi. rewrite rev_nth by exact Hi. pose proof (zrange_length a b) as Hl.
+  rewrite zrange_nth by lia. lia.
+Qed.
+
+Lemma nth_flat_map_rows {A B C : Type} (f : A -> B -> C) (xs : list B) (ys : list A) (dc : C) (da : A) (db : B) :
+  forall i j, (i < length xs)%nat -> (j < length ys)%nat ->
+  nth (j * length xs + i) (flat_map (fun y => map (f y) xs) ys) dc = f (nth j ys da) (nth i xs db).
+Proof.
+  intros i j Hi. revert j. induction ys as [|y ys IH]; intros j Hj; [cbn in Hj; lia|].
+  cbn [flat_map]. destruct j as [|j].
+  - cbn [Nat.mul Nat.add nth]. rewrite app_nth1 by (rewrite map_length; exact Hi).
+    rewrite (nth_indep _ dc (f y db)) by (rewrite map_length; exact Hi). apply map_nth.
+  - rewrite app_nth2 by (rewrite map_length; cbn [Nat.mul]; lia).
+    rewrite map_length. replace (S j * length xs + i - length xs)%nat with (j * length xs + i)%nat by (cbn [Nat.mul]; lia).
+    cbn [nth]. apply IH. cbn [length] in Hj. lia.
+Qed.
+
+Lemma flat_map_rows_length {A B C : Type} (f : A -> B -> C) (xs : list B) (ys : list A) :
+  length (flat_map (fun y => map (f y) xs) ys) = (length ys * length xs)%nat.
+Proof. induction ys as [|y ys IH]; [reflexivity|]. cbn [flat_map length]. rewrite app_length, map_length, IH. cbn [Nat.mul]. lia. Qed.
+
+(* columns (west to east) and rows (as listed) of the block reported for rectangle b *)
+Definition inset (g : grid) (l : Z) : Z := res_at g l / 10.
+Definition aff_cols (g : grid) (b : bbox) (l : Z) : list Z :=
+  let '(bx0, by0, bx1, by1) := b in
+  zrange (fst (tile g (bx0 + inset g l) (by0 + inset g l) l)) (fst (tile g (bx1 - inset g l) (by1 - inset g l) l)).
+Definition aff_rows (g : grid) (b : bbox) (l : Z) : list Z :=
+  let '(bx0, by0, bx1, by1) := b in
+  let ty0 := snd (tile g (bx0 + inset g l) (by0 + inset g l) l) in
+  let ty1 := snd (tile g (bx1 - inset g l) (by1 - inset g l) l) in
+  if ul g then zrange ty1 ty0 else rev (zrange ty0 ty1).
+
+Lemma affected_unfold g b l :
+  affected_level_tiles g b l =
+  match aff_cols g b l, aff_rows g b l with
+  | [], _ | _, [] => InvalidBBOX
+  | xf :: _, yf :: _ =>
+    Affected (merge_bbox (tile_bbox g xf (last (aff_rows g b l) yf) l) (tile_bbox g (last (aff_cols g b l) xf) yf l))
+             (Z.of_nat (length (aff_cols g b l))) (Z.of_nat (length (aff_rows g b l)))
+             (create_tile_list (aff_cols g b l) (aff_rows g b l) l (grid_size g l))
+  end.
+Proof. destruct b as [[[bx0 by0] bx1] by1]. reflexivity. Qed.
+
+Lemma affected_inv g b l ab n m ts :
+  affected_level_tiles g b l = Affected ab n m ts ->
+  aff_cols g b l <> [] /\ aff_rows g b l <> [] /\
+  n = Z.of_nat (length (aff_cols g b l)) /\ m = Z.of_nat (length (aff_rows g b l)) /\
+  ts = create_tile_list (aff_cols g b l) (aff_rows g b l) l (grid_size g l).
+Proof.
+  rewrite affected_unfold. destruct (aff_cols g b l) as [|xf xs] eqn:Ex; [discriminate|].
+  destruct (aff_rows g b l) as [|yf ys] eqn:Ey; [discriminate|].
+  intros H. inversion H. repeat split; congruence.
+Qed.
+
+Lemma affected_some g b l :
+  aff_cols g b l <> [] -> aff_rows g b l <> [] ->
+  exists ab, affected_level_tiles g b l =
+    Affected ab (Z.of_nat (length (aff_cols g b l))) (Z.of_nat (length (aff_rows g b l)))
+             (create_tile_list (aff_cols g b l) (aff_rows g b l) l (grid_size g l)).
+Proof.
+  intros Hx Hy. rewrite affected_unfold. destruct (aff_cols g b l) as [|xf xs]; [contradiction|].
+  destruct (aff_rows g b l) as [|yf ys]; [contradiction|]. eexists. reflexivity.
+Qed.
+
+Lemma create_tile_list_In xs ys l gs e :
+  In e (create_tile_list xs ys l gs) <->
+  exists x y, In x xs /\ In y ys /\ e = tile_or_none (fst gs) (snd gs) l x y.
+Proof.
+  unfold create_tile_list. rewrite in_flat_map. split.
+  - intros (y & Hy & H). apply in_map_iff in H. destruct H as (x & <- & Hx). eauto.
+  - intros (x & y & Hx & Hy & ->). exists y. split; [exact Hy|]. apply in_map_iff. eauto.
+Qed.
+
+Lemma aff_cols_In g b l x :
+  let '(bx0, by0, bx1, by1) := b in
+  In x (aff_cols g b l) <->
+  fst (tile g (bx0 + inset g l) (by0 + inset g l) l) <= x <= fst (tile g (bx1 - inset g l) (by1 - inset g l) l).
+Proof. destruct b as [[[bx0 by0] bx1] by1]. unfold aff_cols. apply zrange_In. Qed.
+
+Lemma aff_rows_In g b l y :
+  let '(bx0, by0, bx1, by1) := b in
+  let ty0 := snd (tile g (bx0 + inset g l) (by0 + inset g l) l) in
+  let ty1 := snd (tile g (bx1 - inset g l) (by1 - inset g l) l) in
+  In y (aff_rows g b l) <-> if ul g then ty1 <= y <= ty0 else ty0 <= y <= ty1.
+Proof.
+  destruct b as [[[bx0 by0] bx1] by1]. unfold aff_rows. cbv zeta. destruct (ul g).
+  - apply zrange_In.
+  - rewrite <- in_rev. apply zrange_In.
+Qed.
+
+Lemma tile_mono_x g px px' py py' l :
+  wf g -> valid_level g l = true -> px <= px' -> fst (tile g px py l) <= fst (tile g px' py' l).
+Proof.
+  intros Hwf Hv H. pose proof (res_at_pos g l Hwf Hv). destruct Hwf as (_ & _ & Htw & _).
+  unfold tile. cbn [fst]. apply Z.div_le_mono; nia.
+Qed.
+
+Lemma tile_mono_y g px px' py py' l :
+  wf g -> valid_level g l = true -> py <= py' ->
+  if ul g then snd (tile g px' py' l) <= snd (tile g px py l) else snd (tile g px py l) <= snd (tile g px' py' l).
+Proof.
+  intros Hwf Hv H. pose proof (res_at_pos g l Hwf Hv). destruct Hwf as (_ & _ & _ & Hth & _).
+  unfold tile. destruct (ul g); cbn [snd]; apply Z.div_le_mono; nia.
+Qed.
+
+(* cover: a point at least 1/10 pixel inside the rectangle has its tile listed (as Some when the tile is a
+   tile of the grid, i.e. the point lies in the tiled area) *)
+Lemma affected_tiles_cover g b l px py :
+  wf g -> valid_level g l = true ->
+  let '(bx0, by0, bx1, by1) := b in
+  bx0 + inset g l <= px <= bx1 - inset g l -> by0 + inset g l <= py <= by1 - inset g l ->
+  exists ab n m ts, affected_level_tiles g b l = Affected ab n m ts /\
+    let '(tx, ty) := tile g px py l in In (limit_tile g tx ty l) ts.
+Proof.
+  intros Hwf Hv. destruct b as [[[bx0 by0] bx1] by1]. intros Hx Hy.
+  set (b := (bx0, by0, bx1, by1)).
+  assert (Hcx : In (fst (tile g px py l)) (aff_cols g b l)).
+  { apply (aff_cols_In g b l). split; apply tile_mono_x; try assumption; lia. }
+  assert (Hcy : In (snd (tile g px py l)) (aff_rows g b l)).
+  { apply (aff_rows_In g b l). cbv zeta.
+    pose proof (tile_mono_y g (bx0 + inset g l) px (by0 + inset g l) py l Hwf Hv ltac:(lia)) as H1.
+    pose proof (tile_mono_y g px (bx1 - inset g l) py (by1 - inset g l) l Hwf Hv ltac:(lia)) as H2.
+    destruct (ul g); lia. }
+  destruct (affected_some g b l) as [ab Hab].
+  { intros E. rewrite E in Hcx. contradiction. }
+  { intros E. rewrite E in Hcy. contradiction. }
+  eexists _, _, _, _. split; [exact Hab|].
+  destruct (tile g px py l) as [tx ty] eqn:Et. cbn [fst snd] in *.
+  apply create_tile_list_In. exists tx, ty. split; [exact Hcx|]. split; [exact Hcy|].
+  symmetry. apply tile_or_none_limit. exact Hv.
+Qed.
+
+(* no tile merely touches: the rectangle of every listed tile reaches at least 1/10 pixel into the query
+   rectangle from each of its four sides *)
+Lemma affected_tiles_reach_inside g b l ab n m ts x y l' :
+  wf g -> valid_level g l = true ->
+  affected_level_tiles g b l = Affected ab n m ts -> In (Some (x, y, l')) ts ->
+  let '(bx0, by0, bx1, by1) := b in
+  let '(x0, y0, x1, y1) := tile_bbox g x y l in
+  l' = l /\ x0 <= bx1 - inset g l /\ bx0 + inset g l <= x1 /\ y0 <= by1 - inset g l /\ by0 + inset g l <= y1.
+Proof.
+  intros Hwf Hv Ha Hin. apply affected_inv in Ha. destruct Ha as (_ & _ & _ & _ & ->).
+  apply create_tile_list_In in Hin. destruct Hin as (cx & cy & Hcx & Hcy & He).
+  unfold tile_or_none in He. destruct (_ || _) in He; [discriminate|]. inversion He; subst cx cy l'. clear He.
+  pose proof (aff_cols_In g b l x) as Hx. pose proof (aff_rows_In g b l y) as Hy.
+  destruct b as [[[bx0 by0] bx1] by1]. cbv zeta in Hy.
+  apply Hx in Hcx. apply Hy in Hcy. clear Hx Hy.
+  pose proof (res_at_pos g l Hwf Hv) as Hr. destruct Hwf as (_ & _ & Htw & Hth & _).
+  unfold tile in *. cbn [fst snd] in *. unfold tile_bbox. set (r := res_at g l) in *. set (dl := inset g l) in *.
+  assert (Hsx : 0 < r * tw g) by (apply Z.mul_pos_pos; assumption).
+  assert (Hsy : 0 < r * th g) by (apply Z.mul_pos_pos; assumption).
+  pose proof (div_bounds (bx0 + dl - gx0 g) (r * tw g) Hsx).
+  pose proof (div_bounds (bx1 - dl - gx0 g) (r * tw g) Hsx).
+  destruct (ul g).
+  - pose proof (div_bounds (gy1 g - (by0 + dl)) (r * th g) Hsy).
+    pose proof (div_bounds (gy1 g - (by1 - dl)) (r * th g) Hsy).
+    split; [reflexivity|]. repeat split; nia.
+  - pose proof (div_bounds (by0 + dl - gy0 g) (r * th g) Hsy).
+    pose proof (div_bounds (by1 - dl - gy0 g) (r * th g) Hsy).
+    split; [reflexivity|]. repeat split; nia.
+Qed.
+
+Lemma inset_le_res g l : wf g -> valid_level g l = true -> 0 <= inset g l <= res_at g l.
+Proof. intros Hwf Hv. pose proof (res_at_pos g l Hwf Hv). unfold inset. lia. Qed.
+
+(* ... hence it overlaps the rectangle by at least 1/10 pixel in both axes (for rectangles at least that big) *)
+Lemma affected_tiles_no_touch g b l ab n m ts x y l' :
+  wf g -> valid_level g l = true ->
+  affected_level_tiles g b l = Affected ab n m ts -> In (Some (x, y, l')) ts ->
+  let '(bx0, by0, bx1, by1) := b in
+  inset g l <= bx1 - bx0 -> inset g l <= by1 - by0 ->
+  let '(x0, y0, x1, y1) := tile_bbox g x y l in
+  inset g l <= Z.min x1 bx1 - Z.max x0 bx0 /\ inset g l <= Z.min y1 by1 - Z.max y0 by0.
+Proof.
+  intros Hwf Hv Ha Hin. pose proof (affected_tiles_reach_inside g b l ab n m ts x y l' Hwf Hv Ha Hin) as H.
+  pose proof (tile_bbox_size g x y l) as Hs. pose proof (inset_le_res g l Hwf Hv) as Hi.
+  pose proof (res_at_pos g l Hwf Hv) as Hr. destruct Hwf as (_ & _ & Htw & Hth & _).
+  destruct b as [[[bx0 by0] bx1] by1]. destruct (tile_bbox g x y l) as [[[x0 y0] x1] y1].
+  intros Hw Hh. nia.
+Qed.
+
+(* every entry is limit_tile of its block position: Some exactly for the tiles of the grid *)
+Lemma affected_tiles_valid g b l ab n m ts :
+  valid_level g l = true ->
+  affected_level_tiles g b l = Affected ab n m ts ->
+  (forall e, In e ts -> exists x y, In x (aff_cols g b l) /\ In y (aff_rows g b l) /\ e = limit_tile g x y l) /\
+  (forall t, In (Some t) ts -> let '(x, y, l') := t in limit_tile g x y l' = Some t).
+Proof.
+  intros Hv Ha. apply affected_inv in Ha. destruct Ha as (_ & _ & _ & _ & ->).
+  assert (H1 : forall e, In e (create_tile_list (aff_cols g b l) (aff_rows g b l) l (grid_size g l)) ->
+               exists x y, In x (aff_cols g b l) /\ In y (aff_rows g b l) /\ e = limit_tile g x y l).
+  { intros e He. apply create_tile_list_In in He. destruct He as (x & y & Hx & Hy & ->).
+    exists x, y. rewrite tile_or_none_limit by exact Hv. auto. }
+  split; [exact H1|]. intros [[x y] l'] Ht. destruct (H1 _ Ht) as (cx & cy & _ & _ & He).
+  symmetry in He. pose proof (limit_tile_some _ _ _ _ _ He) as (Heq & _). inversion Heq; subst. exact He.
+Qed.
+
+(* row-major from the top: entry number j*n + i is column (first column + i) of the j-th row counted from the
+   row that contains the top edge of the (inset) rectangle; each row lies directly below the previous one *)
+Definition aff_row (g : grid) (b : bbox) (l : Z) (j : nat) : Z :=
+  let '(bx0, by0, bx1, by1) := b in
+  let ytop := snd (tile g (bx1 - inset g l) (by1 - inset g l) l) in
+  if ul g then ytop + Z.of_nat j else ytop - Z.of_nat j.
+Definition aff_col (g : grid) (b : bbox) (l : Z) (i : nat) : Z :=
+  let '(bx0, by0, bx1, by1) := b in
+  fst (tile g (bx0 + inset g l) (by0 + inset g l) l) + Z.of_nat i.
+
+Lemma aff_rows_nth g b l j d : (j < length (aff_rows g b l))%nat -> nth j (aff_rows g b l) d = aff_row g b l j.
+Proof.
+  destruct b as [[[bx0 by0] bx1] by1]. unfold aff_rows, aff_row. cbv zeta. destruct (ul g); intros Hj.
+  - apply zrange_nth. exact Hj.
+  - rewrite rev_length in Hj. apply rev_zrange_nth. exact Hj.
+Qed.
+
+Lemma aff_cols_nth g b l i d : (i < length (aff_cols g b l))%nat -> nth i (aff_cols g b l) d = aff_col g b l i.
+Proof. destruct b as [[[bx0 by0] bx1] by1]. unfold aff_cols, aff_col. apply zrange_nth. Qed.
+
+Lemma affected_tiles_row_major_from_top g b l ab n m ts :
+  valid_level g l = true ->
+  affected_level_tiles g b l = Affected ab n m ts ->
+  let '(bx0, by0, bx1, by1) := b in
+  let '(cx0, cy0) := tile g (bx0 + inset g l) (by0 + inset g l) l in
+  let '(cx1, cy1) := tile g (bx1 - inset g l) (by1 - inset g l) l in
+  n = cx1 - cx0 + 1 /\ m = (if ul g then cy0 - cy1 else cy1 - cy0) + 1 /\ 1 <= n /\ 1 <= m /\
+  length ts = (Z.to_nat m * Z.to_nat n)%nat /\
+  (forall i j, (i < Z.to_nat n)%nat -> (j < Z.to_nat m)%nat ->
+     nth (j * Z.to_nat n + i) ts None = limit_tile g (cx0 + Z.of_nat i) (aff_row g b l j) l) /\
+  (* the row listed first contains the top edge of the inset rectangle, every further row lies directly below *)
+  aff_row g b l 0 = cy1 /\
+  (forall x j, let '(_, _, _, y1) := tile_bbox g x (aff_row g b l j) l in
+               let '(_, y0', _, y1') := tile_bbox g x (aff_row g b l (S j)) l in y1' = y1 - res_at g l * th g /\ y0' = y1' - res_at g l * th g).
+Proof.
+  intros Hv Ha. apply affected_inv in Ha. destruct Ha as (Hx & Hy & -> & -> & ->).
+  assert (Hlx : (0 < length (aff_cols g b l))%nat) by (destruct (aff_cols g b l); [contradiction|cbn; lia]).
+  assert (Hly : (0 < length (aff_rows g b l))%nat) by (destruct (aff_rows g b l); [contradiction|cbn; lia]).
+  pose proof (aff_cols_nth g b l) as Hcn. pose proof (aff_rows_nth g b l) as Hrn.
+  assert (Hlen : length (create_tile_list (aff_cols g b l) (aff_rows g b l) l (grid_size g l)) =
+                 (length (aff_rows g b l) * length (aff_cols g b l))%nat) by apply flat_map_rows_length.
+  assert (Hnth : forall i j, (i < length (aff_cols g b l))%nat -> (j < length (aff_rows g b l))%nat ->
+            nth (j * length (aff_cols g b l) + i) (create_tile_list (aff_cols g b l) (aff_rows g b l) l (grid_size g l)) None
+            = limit_tile g (aff_col g b l i) (aff_row g b l j) l).
+  { intros i j Hi Hj. unfold create_tile_list.
+    rewrite (nth_flat_map_rows (fun y x => tile_or_none (fst (grid_size g l)) (snd (grid_size g l)) l x y) _ _ None 0 0 i j Hi Hj).
+    rewrite Hcn, Hrn by assumption. apply tile_or_none_limit. exact Hv. }
+  revert Hlx Hly Hlen Hnth. clear Hcn Hrn Hx Hy.
+  destruct b as [[[bx0 by0] bx1] by1]. unfold aff_col, aff_row, aff_cols, aff_rows. cbv zeta.
+  destruct (tile g (bx0 + inset g l) (by0 + inset g l) l) as [cx0 cy0].
+  destruct (tile g (bx1 - inset g l) (by1 - inset g l) l) as [cx1 cy1]. cbn [fst snd].
+  assert (Hrl : length (if ul g then zrange cy1 cy0 else rev (zrange cy0 cy1)) =
+                Z.to_nat ((if ul g then cy0 - cy1 else cy1 - cy0) + 1)).
+  { destruct (ul g); [|rewrite rev_length]; rewrite zrange_length; f_equal; lia. }
+  rewrite Hrl. rewrite zrange_length. intros Hlx Hly Hlen Hnth.
+  split; [lia|]. split; [lia|]. split; [lia|]. split; [lia|].
+  rewrite !Nat2Z.id. split; [exact Hlen|]. split; [exact Hnth|].
+  split; [destruct (ul g); lia|].
+  intros x j. unfold tile_bbox. destruct (ul g); split; nia.
+Qed.
+
+(* ---- part D: level choice.  The requested resolution is the rational rn / rd. *)
+(* level l offers the requested resolution or a coarser one within the stretch factor: res <= r_l <= res * stretch *)
+Definition level_within (g : grid) (rn rd l : Z) : Prop :=
+  rn <= res_at g l * rd /\ res_at g l * rd * sf_d g <= rn * sf_n g.
+(* level l is finer than requested: r_l < res *)
+Definition level_finer (g : grid) (rn rd l : Z) : Prop := res_at g l * rd < rn.
+Definition decreasing_res (g : grid) : Prop :=
+  forall i j, 0 <= i -> i < j -> j < levels g -> res_at g j < res_at g i.
+
+Definition closest_level_spec_of (g : grid) (rn rd k : Z) : Prop :=
+  0 <= k < levels g /\
+  ((level_within g rn rd k /\ forall j, k < j < levels g -> ~ level_within g rn rd j)
+   \/ ((forall j, 0 <= j < levels g -> ~ level_within g rn rd j) /\
+       level_finer g rn rd k /\ forall j, 0 <= j < k -> ~ level_finer g rn rd j)
+   \/ ((forall j, 0 <= j < levels g -> ~ level_within g rn rd j /\ ~ level_finer g rn rd j) /\ k = levels g - 1)).
+
+(* rs is the tail of the resolution list starting at level lv *)
+Fixpoint res_tail (g : grid) (lv : Z) (rs : list Z) : Prop :=
+  match rs with
+  | [] => True
+  | r :: rest => r = res_at g lv /\ res_tail g (lv + 1) rest
+  end.
+
+Lemma res_tail_app pre : forall rs g0 lv,
+  ress g0 = pre ++ rs -> lv = Z.of_nat (length pre) -> res_tail g0 lv rs.
+Proof.
+  intros rs. revert pre. induction rs as [|r rest IH]; intros pre g0 lv Hr Hl; [exact I|].
+  cbn [res_tail]. split.
+  - unfold res_at. rewrite Hr, Hl, Nat2Z.id. rewrite app_nth2 by lia. rewrite Nat.sub_diag. reflexivity.
+  - apply (IH (pre ++ [r])).
+    + rewrite <- app_assoc. exact Hr.
+    + rewrite app_length. cbn [length]. lia.
+Qed.
+
+Lemma res_tail_all g : res_tail g 0 (ress g).
+Proof. apply (res_tail_app []); reflexivity. Qed.
+
+Section Closest.
+Variable g : grid.
+Variables rn rd : Z.
+Hypothesis Hdec : decreasing_res g.
+Hypothesis Hrd : 0 < rd.
+Hypothesis Hrn : 0 < rn.
+Hypothesis Hsf : 0 < sf_d g <= sf_n g.
+
+(* a threshold level t has been remembered and every remaining level is finer than requested *)
+Lemma loop_all_finer : forall rs lv t,
+  res_tail g lv rs -> 0 <= lv -> lv + Z.of_nat (length rs) = levels g ->
+  (forall j, lv <= j < levels g -> level_finer g rn rd j) ->
+  closest_level_loop g rn rd rs lv (Some t) t = t.
+Proof.
+  intros [|r rest] lv t Ht Hlv Hlen Hf; [reflexivity|].
+  cbn [closest_level_loop]. destruct Ht as [-> _].
+  assert (Hfl : level_finer g rn rd lv) by (apply Hf; cbn [length] in Hlen; lia).
+  unfold level_finer in Hfl. replace (res_at g lv * rd <? rn) with true by (symmetry; lia). reflexivity.
+Qed.
+
+(* level lv-1 is remembered and is within the stretch factor *)
+Lemma loop_within : forall rs lv,
+  res_tail g lv rs -> 1 <= lv -> lv + Z.of_nat (length rs) = levels g ->
+  level_within g rn rd (lv - 1) ->
+  let k := closest_level_loop g rn rd rs lv (Some (lv - 1)) (lv - 1) in
+  lv - 1 <= k < levels g /\ level_within g rn rd k /\ forall j, k < j < levels g -> ~ level_within g rn rd j.
+Proof.
+  induction rs as [|r rest IH]; intros lv Ht Hlv Hlen Hw; cbn [closest_level_loop length] in *.
+  - split; [lia|]. split; [exact Hw|]. intros j Hj. lia.
+  - destruct Ht as [-> Ht]. destruct (res_at g lv * rd <? rn) eqn:E.
+    + split; [lia|]. split; [exact Hw|]. intros j Hj [Hj1 _].
+      assert (res_at g j <= res_at g lv).
+      { destruct (Z.eq_dec j lv) as [->|]; [lia|]. pose proof (Hdec lv j ltac:(lia) ltac:(lia) ltac:(lia)). lia. }
+      nia.
+    + assert (Hw' : level_within g rn rd lv).
+      { unfold level_within in *. split; [lia|].
+        pose proof (Hdec (lv - 1) lv ltac:(lia) ltac:(lia) ltac:(lia)) as Hd1.
+        assert (Hp : 0 < rd * sf_d g) by nia. destruct Hw as [_ Hw2].
+        assert (res_at g lv * (rd * sf_d g) <= res_at g (lv - 1) * (rd * sf_d g)) by (apply Z.mul_le_mono_nonneg_r; lia).
+        lia. }
+      destruct Hw' as [Hw1 Hw2].
+      replace (res_at g lv * rd * sf_d g <=? rn * sf_n g) with true by (symmetry; lia).
+      specialize (IH (lv + 1) Ht ltac:(lia) ltac:(lia)).
+      replace (lv + 1 - 1) with lv in IH by lia.
+      specialize (IH (conj Hw1 Hw2)). cbv zeta in IH. destruct IH as (Hk & Hkw & Hkj).
+      split; [lia|]. split; assumption.
+Qed.
+
+(* nothing remembered yet: every level before lv is coarser than res * stretch *)
+Lemma loop_none : forall rs lv,
+  res_tail g lv rs -> 0 <= lv -> lv + Z.of_nat (length rs) = levels g -> 0 < levels g ->
+  (forall j, 0 <= j < lv -> rn * sf_n g < res_at g j * rd * sf_d g) ->
+  closest_level_spec_of g rn rd (closest_level_loop g rn rd rs lv None (lv - 1)).
+Proof.
+  induction rs as [|r rest IH]; intros lv Ht Hlv Hlen Hne Hc; cbn [closest_level_loop length] in *.
+  - (* no level within the stretch factor, none finer: the last level *)
+    unfold closest_level_spec_of. split; [lia|]. right. right. split; [|lia].
+    intros j Hj. specialize (Hc j ltac:(lia)). unfold level_within, level_finer. split; [lia|]. nia.
+  - destruct Ht as [-> Ht]. destruct (res_at g lv * rd * sf_d g <=? rn * sf_n g) eqn:E.
+    + destruct (Z_lt_le_dec (res_at g lv * rd) rn) as [Hfin|Hge].
+      * (* first level below res * stretch is already finer than requested *)
+        assert (Hall : forall j, lv <= j < levels g -> level_finer g rn rd j).
+        { intros j Hj. unfold level_finer. destruct (Z.eq_dec j lv) as [->|]; [exact Hfin|].
+          pose proof (Hdec lv j ltac:(lia) ltac:(lia) ltac:(lia)). nia. }
+        replace (lv + 1 - 1) with lv by lia.
+        rewrite (loop_all_finer rest (lv + 1) lv Ht ltac:(lia) ltac:(lia)) by (intros j Hj; apply Hall; lia).
+        unfold closest_level_spec_of. split; [lia|]. right. left. split; [|split].
+        -- intros j Hj. destruct (Z_lt_le_dec j lv).
+           ++ specialize (Hc j ltac:(lia)). unfold level_within. lia.
+           ++ specialize (Hall j ltac:(lia)). unfold level_within, level_finer in *. lia.
+        -- apply Hall. lia.
+        -- intros j Hj. specialize (Hc j ltac:(lia)). unfold level_finer. nia.
+      * pose proof (loop_within rest (lv + 1) Ht ltac:(lia) ltac:(lia)) as Hlw.
+        replace (lv + 1 - 1) with lv in * by lia.
+        specialize (Hlw ltac:(unfold level_within; lia)). cbv zeta in Hlw.
+        destruct Hlw as (Hk & Hkw & Hkj). unfold closest_level_spec_of. split; [lia|]. left. split; assumption.
+    + replace (lv + 1 - 1) with lv by lia.
+      specialize (IH (lv + 1) Ht ltac:(lia) ltac:(lia) Hne). replace (lv + 1 - 1) with lv in IH by lia.
+      apply IH. intros j Hj. destruct (Z.eq_dec j lv) as [->|]; [lia|]. apply Hc. lia.
+Qed.
+
+Lemma closest_level_spec_in_section : 0 < levels g -> closest_level_spec_of g rn rd (closest_level g rn rd).
+Proof.
+  intros Hne. unfold closest_level. apply (loop_none (ress g) 0 (res_tail_all g)); try lia.
+  unfold levels. lia.
+Qed.
+End Closest.
+
+Lemma closest_level_spec g rn rd :
+  decreasing_res g -> 0 < levels g -> 0 < rd -> 0 < rn -> 0 < sf_d g <= sf_n g ->
+  closest_level_spec_of g rn rd (closest_level g rn rd).
+Proof. intros Hd Hl Hrd Hrn Hsf. apply closest_level_spec_in_section; assumption. Qed.
+
+(* the specification determines the level *)
+Lemma closest_level_spec_unique g rn rd k k' :
+  closest_level_spec_of g rn rd k -> closest_level_spec_of g rn rd k' -> k = k'.
+Proof.
+  unfold closest_level_spec_of. intros [Hk H] [Hk' H'].
+  destruct H as [[Hw Hn]|[[Hn [Hf Hc]]|[Hn ->]]]; destruct H' as [[Hw' Hn']|[[Hn' [Hf' Hc']]|[Hn' ->]]].
+  - destruct (Z.lt_trichotomy k k') as [Hlt|[Heq|Hgt]]; [|exact Heq|].
+    + exfalso. apply (Hn k'); [lia|exact Hw'].
+    + exfalso. apply (Hn' k); [lia|exact Hw].
+  - exfalso. apply (Hn' k); [lia|exact Hw].
+  - exfalso. destruct (Hn' k ltac:(lia)) as [A _]. exact (A Hw).
+  - exfalso. apply (Hn k'); [lia|exact Hw'].
+  - destruct (Z.lt_trichotomy k k') as [Hlt|[Heq|Hgt]]; [|exact Heq|].
+    + exfalso. apply (Hc' k); [lia|exact Hf].
+    + exfalso. apply (Hc k'); [lia|exact Hf'].
+  - exfalso. destruct (Hn' k ltac:(lia)) as [_ B]. exact (B Hf).
+  - exfalso. destruct (Hn k' ltac:(lia)) as [A _]. exact (A Hw').
+  - exfalso. destruct (Hn k' ltac:(lia)) as [_ B]. exact (B Hf').
+  - reflexivity.
+Qed.
+
+(* ---- non-vacuity: concrete grids satisfying the hypotheses of the theorems above *)
+(* bbox not a multiple of the tile span, non-square tiles, three levels, stretch 23/20 = 1.15 *)
+Definition ex_grid : grid := mkGrid (-1000) (-500) 3070 2110 4 2 [100; 50; 20] false 23 20 4 1.
+(* aligned: 800 x 400 with 200 x 100 pixel-unit tiles of level 0, north-west numbering *)
+Definition ex_aligned : grid := mkGrid 0 0 800 400 4 2 [100; 50] true 23 20 4 1.
+
+Lemma ex_grid_wf : wf ex_grid.
+Proof.
+  unfold wf, pos_res. cbn [ex_grid gx0 gy0 gx1 gy1 tw th ress]. repeat (split; [lia|]).
+  intros r [<-|[<-|[<-|[]]]]; lia.
+Qed.
+Lemma ex_aligned_wf : wf ex_aligned.
+Proof.
+  unfold wf, pos_res. cbn [ex_aligned gx0 gy0 gx1 gy1 tw th ress]. repeat (split; [lia|]).
+  intros r [<-|[<-|[]]]; lia.
+Qed.
+Lemma ex_grid_decreasing : decreasing_res ex_grid.
+Proof.
+  intros i j Hi Hij Hj. change (levels ex_grid) with 3 in Hj.
+  assert (Hc : (i = 0 /\ j = 1) \/ (i = 0 /\ j = 2) \/ (i = 1 /\ j = 2)) by lia.
+  destruct Hc as [[-> ->]|[[-> ->]|[-> ->]]]; vm_compute; reflexivity.
+Qed.
+
+Example ex_point_in_own_tile : tile ex_grid 1234 (-77) 2 = (27, 10) /\ owns ex_grid (tile_bbox ex_grid 27 10 2) 1234 (-77).
+Proof. split; [reflexivity|]. exact (point_in_own_tile ex_grid 1234 (-77) 2 ex_grid_wf eq_refl). Qed.
+
+(* the strip not covered: the bbox is 4070 x 2610; level 2 (res 20, tiles of 80 x 40) has 51 x 65 tiles = 4080 x 2600:
+   the top 10 units (half a pixel) of the bbox belong to no tile of the grid *)
+Example ex_grid_sizes : grid_sizes ex_grid = [(10, 13); (21, 26); (51, 65)].
+Proof. reflexivity. Qed.
+Example ex_tiled_area : in_tiled_area ex_grid 2 3069 2099 /\ ~ in_tiled_area ex_grid 2 3069 2105.
+Proof.
+  unfold in_tiled_area. change (grid_size ex_grid 2) with (51, 65). change (res_at ex_grid 2) with 20.
+  cbn [ex_grid ul gx0 gy0 gx1 gy1 tw th]. split; lia.
+Qed.
+
+Example ex_supports : supports_access_with_origin ex_aligned false = true /\ supports_access_with_origin ex_grid true = false.
+Proof. split; reflexivity. Qed.
+Example ex_flip_rectangle :
+  coord_for_origin ex_aligned false 1 0 1 = (1, 3, 1) /\
+  tile_bbox (set_origin ex_aligned false) 1 3 1 = tile_bbox ex_aligned 1 0 1.
+Proof.
+  split; [reflexivity|].
+  exact (flip_preserves_rectangle_exact ex_aligned false 1 0 1 ex_aligned_wf eq_refl eq_refl eq_refl).
+Qed.
+(* without the compatibility test the rectangles differ: level 0 of ex_grid is misaligned by 10 *)
+Example ex_flip_misaligned :
+  tile_bbox (set_origin ex_grid true) 0 12 0 <> tile_bbox ex_grid 0 0 0 /\ misalign ex_grid 0 = 10.
+Proof. split; [vm_compute; discriminate|reflexivity]. Qed.
+
+(* a rectangle across the east edge of the grid at level 1 (inset 5): 3 columns x 2 rows listed from the top row,
+   the third column (21) is outside the grid (21 columns: 0..20) *)
+Example ex_affected :
+  affected_level_tiles ex_grid (2900, 195, 3205, 305) 1 =
+  Affected (2800, 200, 3400, 400) 3 2 [Some (19, 8, 1); Some (20, 8, 1); None; Some (19, 7, 1); Some (20, 7, 1); None].
+Proof. vm_compute. reflexivity. Qed.
+(* hypotheses of affected_tiles_cover / no_touch are satisfiable on it *)
+Example ex_affected_cover :
+  exists ab n m ts, affected_level_tiles ex_grid (2900, 195, 3205, 305) 1 = Affected ab n m ts /\ In (Some (20, 7, 1)) ts.
+Proof.
+  exact (affected_tiles_cover ex_grid (2900, 195, 3205, 305) 1 3000 250 ex_grid_wf eq_refl
+           ltac:(vm_compute; split; discriminate) ltac:(vm_compute; split; discriminate)).
+Qed.
+Example ex_affected_no_touch :
+  let '(x0, y0, x1, y1) := tile_bbox ex_grid 19 8 1 in
+  5 <= Z.min x1 3205 - Z.max x0 2900 /\ 5 <= Z.min y1 305 - Z.max y0 195.
+Proof.
+  exact (affected_tiles_no_touch ex_grid (2900, 195, 3205, 305) 1 _ _ _ _ 19 8 1 ex_grid_wf eq_refl ex_affected
+           (or_introl eq_refl) ltac:(vm_compute; discriminate) ltac:(vm_compute; discriminate)).
+Qed.
+
+(* level choice on ex_grid (resolutions 100, 50, 20; stretch 1.15): 45 -> level 1 (50 <= 45 * 1.15), 43 -> level 2
+   (50 > 43 * 1.15 = 49.45: the coarsest finer level), 10 -> level 2 (nothing fine enough: the last level) *)
+Example ex_closest : closest_level ex_grid 45 1 = 1 /\ closest_level ex_grid 43 1 = 2 /\ closest_level ex_grid 10 1 = 2
+                     /\ closest_level ex_grid 100 1 = 0 /\ closest_level ex_grid 500 1 = 0.
+Proof. repeat split; reflexivity. Qed.
+Example ex_closest_spec : closest_level_spec_of ex_grid 45 1 1.
+Proof.
+  exact (closest_level_spec ex_grid 45 1 ex_grid_decreasing ltac:(vm_compute; reflexivity) ltac:(lia) ltac:(lia)
+           ltac:(cbn; lia)).
+Qed.
+
+(* ---- the reported bbox *)
+Lemma zrange_cons a b : a <= b -> zrange a b = a :: zrange (a + 1) b.
+Proof.
+  intros H. unfold zrange. replace (Z.to_nat (b + 1 - a)) with (S (Z.to_nat (b + 1 - (a + 1)))) by lia.
+  cbn [seq map]. f_equal; [lia|]. rewrite <- seq_shift, map_map. apply map_ext. intros k. lia.
+Qed.
+
+Lemma zrange_snoc a b : a <= b -> zrange a b = zrange a (b - 1) ++ [b].
+Proof.
+  intros H. unfold zrange. replace (Z.to_nat (b + 1 - a)) with (S (Z.to_nat (b - 1 + 1 - a))) by lia.
+  rewrite seq_S, map_app. cbn [map Nat.add]. f_equal. f_equal. lia.
+Qed.
+
+Lemma zrange_empty a b : b < a -> zrange a b = [].
+Proof. intros H. unfold zrange. replace (Z.to_nat (b + 1 - a)) with O by lia. reflexivity. Qed.
+
+Lemma zrange_first_last a b :
+  match zrange a b with
+  | [] => b < a
+  | f :: _ => a <= b /\ f = a /\ last (zrange a b) f = b
+  end.
+Proof.
+  destruct (Z_lt_le_dec b a) as [H|H].
+  - rewrite zrange_empty by exact H. exact H.
+  - rewrite (zrange_cons a b H). split; [exact H|]. split; [reflexivity|].
+    rewrite <- (zrange_cons a b H). rewrite (zrange_snoc a b H). apply last_last.
+Qed.
+
+Lemma rev_zrange_first_last a b :
+  match rev (zrange a b) with
+  | [] => b < a
+  | f :: _ => a <= b /\ f = b /\ last (rev (zrange a b)) f = a
+  end.
+Proof.
+  destruct (Z_lt_le_dec b a) as [H|H].
+  - rewrite zrange_empty by exact H. exact H.
+  - assert (E1 : rev (zrange a b) = b :: rev (zrange a (b - 1))).
+    { rewrite (zrange_snoc a b H) at 1. rewrite rev_app_distr. reflexivity. }
+    assert (E2 : rev (zrange a b) = rev (zrange (a + 1) b) ++ [a]).
+    { rewrite (zrange_cons a b H) at 1. reflexivity. }
+    destruct (rev (zrange a b)) as [|f r] eqn:Er; [discriminate|]. injection E1 as -> Hr.
+    split; [exact H|]. split; [reflexivity|]. rewrite E2. apply last_last.
+Qed.
+
+(* the reported bbox is the union of the rectangle of the tile containing the lower left inset corner and the
+   rectangle of the tile containing the upper right inset corner, i.e. the rectangle of the listed block *)
+Lemma affected_bbox_is_block g b l ab n m ts :
+  wf g -> valid_level g l = true ->
+  affected_level_tiles g b l = Affected ab n m ts ->
+  let '(bx0, by0, bx1, by1) := b in
+  let '(cx0, cy0) := tile g (bx0 + inset g l) (by0 + inset g l) l in
+  let '(cx1, cy1) := tile g (bx1 - inset g l) (by1 - inset g l) l in
+  let '(x0, y0, _, _) := tile_bbox g cx0 cy0 l in
+  let '(_, _, x1, y1) := tile_bbox g cx1 cy1 l in
+  cx0 <= cx1 /\ (if ul g then cy1 <= cy0 else cy0 <= cy1) /\ ab = (x0, y0, x1, y1).
+Proof.
+  intros Hwf Hv. pose proof (res_at_pos g l Hwf Hv) as Hr. destruct Hwf as (_ & _ & Htw & Hth & _).
+  rewrite affected_unfold. destruct b as [[[bx0 by0] bx1] by1]. unfold aff_cols, aff_rows. cbv zeta.
+  destruct (tile g (bx0 + inset g l) (by0 + inset g l) l) as [cx0 cy0].
+  destruct (tile g (bx1 - inset g l) (by1 - inset g l) l) as [cx1 cy1]. cbn [fst snd].
+  pose proof (zrange_first_last cx0 cx1) as Hx.
+  destruct (zrange cx0 cx1) as [|xf xs] eqn:Ex; [discriminate|]. destruct Hx as (Hx & -> & Hxl).
+  assert (Hsx : 0 < res_at g l * tw g) by (apply Z.mul_pos_pos; assumption).
+  assert (Hsy : 0 < res_at g l * th g) by (apply Z.mul_pos_pos; assumption).
+  destruct (ul g) eqn:Eul.
+  - pose proof (zrange_first_last cy1 cy0) as Hy.
+    destruct (zrange cy1 cy0) as [|yf ys] eqn:Ey; [discriminate|]. destruct Hy as (Hy & -> & Hyl).
+    intros H. injection H as Hab _ _ _. rewrite <- Hab. cbn [last] in Hxl, Hyl. rewrite Hxl, Hyl. unfold tile_bbox, merge_bbox. rewrite Eul.
+    split; [exact Hx|]. split; [exact Hy|]. apply bbox_eq; nia.
+  - pose proof (rev_zrange_first_last cy0 cy1) as Hy.
+    destruct (rev (zrange cy0 cy1)) as [|yf ys] eqn:Ey; [discriminate|]. destruct Hy as (Hy & -> & Hyl).
+    intros H. injection H as Hab _ _ _. rewrite <- Hab. cbn [last] in Hxl, Hyl. rewrite Hxl, Hyl. unfold tile_bbox, merge_bbox. rewrite Eul.
+    split; [exact Hx|]. split; [exact Hy|]. apply bbox_eq; nia.
+Qed.
+
+(* the call is refused (GridError 'Invalid BBOX') exactly when the inset corners are in the wrong order *)
+Lemma affected_invalid_iff g b l :
+  let '(bx0, by0, bx1, by1) := b in
+  let '(cx0, cy0) := tile g (bx0 + inset g l) (by0 + inset g l) l in
+  let '(cx1, cy1) := tile g (bx1 - inset g l) (by1 - inset g l) l in
+  affected_level_tiles g b l = InvalidBBOX <-> (cx1 < cx0 \/ if ul g then cy0 < cy1 else cy1 < cy0).
+Proof.
+  rewrite affected_unfold. destruct b as [[[bx0 by0] bx1] by1]. unfold aff_cols, aff_rows. cbv zeta.
+  destruct (tile g (bx0 + inset g l) (by0 + inset g l) l) as [cx0 cy0].
+  destruct (tile g (bx1 - inset g l) (by1 - inset g l) l) as [cx1 cy1]. cbn [fst snd].
+  pose proof (zrange_first_last cx0 cx1) as Hx.
+  destruct (zrange cx0 cx1) as [|xf xs] eqn:Ex.
+  - split; [intros _; left; exact Hx|reflexivity].
+  - destruct Hx as (Hx & _ & _). destruct (ul g).
+    + pose proof (zrange_first_last cy1 cy0) as Hy. destruct (zrange cy1 cy0) as [|yf ys] eqn:Ey.
+      * split; [intros _; right; exact Hy|reflexivity].
+      * destruct Hy as (Hy & _ & _). split; [discriminate|lia].
+    + pose proof (rev_zrange_first_last cy0 cy1) as Hy. destruct (rev (zrange cy0 cy1)) as [|yf ys] eqn:Ey.
+      * split; [intros _; right; exact Hy|reflexivity].
+      * destruct Hy as (Hy & _ & _). split; [discriminate|lia].
+Qed.
+
+(* ---- get_affected_bbox_and_level: NoTiles exactly when the rectangle misses the grid bbox or the requested
+   resolution min(w/sx, h/sy) exceeds res_0 * max_shrink_factor; otherwise the level of closest_level *)
+Lemma affected_level_spec g b sx sy k :
+  let '(rn, rd) := get_resolution b sx sy in
+  affected_level g b sx sy = Some k <->
+  (bbox_intersects (gx0 g, gy0 g, gx1 g, gy1 g) b = true /\
+   rn * shr_d g <= res_at g 0 * shr_n g * rd /\ k = closest_level g rn rd).
+Proof.
+  unfold affected_level. destruct (get_resolution b sx sy) as [rn rd].
+  destruct (bbox_intersects (gx0 g, gy0 g, gx1 g, gy1 g) b); cbn [negb].
+  - destruct (res_at g 0 * shr_n g * rd <? rn * shr_d g) eqn:E.
+    + split; [discriminate|]. intros (_ & H & _). lia.
+    + split.
+      * intros H. inversion H. repeat split. lia.
+      * intros (_ & _ & ->). reflexivity.
+  - split; [discriminate|]. intros (H & _). discriminate.
+Qed.
+
+(* get_resolution is the smaller of the two axis resolutions: rn/rd = min(w/sx, h/sy) *)
+Lemma get_resolution_spec b sx sy :
+  0 < sx -> 0 < sy ->
+  let '(x0, y0, x1, y1) := b in
+  let '(rn, rd) := get_resolution b sx sy in
+  0 < rd /\ rn * sx <= Z.abs (x0 - x1) * rd /\ rn * sy <= Z.abs (y0 - y1) * rd /\
+  (rn * sx = Z.abs (x0 - x1) * rd \/ rn * sy = Z.abs (y0 - y1) * rd).
+Proof.
+  intros Hsx Hsy. destruct b as [[[x0 y0] x1] y1]. unfold get_resolution.
+  destruct (Z.abs (x0 - x1) * sy <=? Z.abs (y0 - y1) * sx) eqn:E.
+  - split; [lia|]. split; [lia|]. split; [lia|]. left. lia.
+  - split; [lia|]. split; [lia|]. split; [lia|]. right. lia.
+Qed.
+
+(* requests on ex_grid: 100 units/pixel -> level 0; 500 units/pixel > 100 * 4: NoTiles; outside the bbox: NoTiles;
+   a rectangle thinner than 2/10 pixel whose inset corners fall into different columns is refused *)
+Example ex_affected_level :
+  affected_level ex_grid (0, 0, 1000, 500) 10 5 = Some 0 /\ affected_level ex_grid (0, 0, 1000, 500) 2 1 = None /\
+  affected_level ex_grid (5000, 0, 6000, 500) 10 5 = None /\ get_resolution (0, 0, 1000, 500) 10 4 = (1000, 10).
+Proof. repeat split; reflexivity. Qed.
+Example ex_affected_invalid : affected_level_tiles ex_grid (1197, 100, 1203, 300) 1 = InvalidBBOX.
+Proof. vm_compute. reflexivity. Qed.
